@@ -111,6 +111,10 @@ def generate(rng, tier):
         yield ("g", toks)
     for p, q in itertools.product(SUPPORTED, repeat=2):
         yield ("g", [["t", "a"], ["s", [p, q]], ["t", "b"], ["s", [q]], ["t", "c"]])
+    for n in (15, 16, 17, 18, 24, 40):                 # one sequence with very many parameters
+        ps = [SUPPORTED[(7 * i + n) % len(SUPPORTED)] for i in range(n)]
+        yield ("g", [["t", "a"], ["s", ps], ["t", "b"], ["s", [0]], ["t", "c"]])
+        yield ("g", [["s", ps[::-1]], ["t", "z\n"]])
     for _ in range(30000 if thorough else 1500):
         yield ("g", rand_grammar(rng))
     # (b) round trips
